@@ -198,6 +198,7 @@ func initDesignateNotaryRoleAsSignerTick(ctx, prm)
 // record returned in this tick: when the record exists (the lookup succeeded) new shared data replace it through setRecord
 // at index 0 of the TXT records of the shared-data domain - never addRecord, which would leave the expired data in front.
 pure lookupErr(k Int) Any = cres2("lookupNNSDomainRecord", k)
+pure lastHeight(n Int) Int = asint(cres("blockchainMonitor.currentHeight", n - 1))
 
 func initDesignateNotaryRoleAsLeaderTick(ctx, prm)
   closure
@@ -208,8 +209,22 @@ func initDesignateNotaryRoleAsLeaderTick(ctx, prm)
   ensures [C13] isnil(lookupErr(old(xcalls("lookupNNSDomainRecord")).len)) && xcalls("actor.Actor.SendCall").len == old(xcalls("actor.Actor.SendCall")).len + 1 ==>
         exists d Bytes :: xcalls("actor.Actor.SendCall")[old(xcalls("actor.Actor.SendCall")).len]
           == ev_actor_Actor_SendCall(prm.nnsOnChainAddress, "setRecord", "designate-committee-notary-tx.bootstrap", 16, 0, d)
+  // new shared data expire at most 120 blocks (~30 min) after the height read when they were made, and not before it
+  // (the Neo limit MaxValidUntilBlockIncrement may shorten the window, never lengthen it)
+  ensures [C13] xcalls("base64.Encoding.EncodeToString").len <= old(xcalls("base64.Encoding.EncodeToString")).len + 1
+  ensures [C13] xcalls("base64.Encoding.EncodeToString").len == old(xcalls("base64.Encoding.EncodeToString")).len + 1 ==>
+        exists x sharedTransactionData :: xcalls("base64.Encoding.EncodeToString")[old(xcalls("base64.Encoding.EncodeToString")).len] == ev_base64_Encoding_EncodeToString(ser(x))
+          && lastHeight(xcalls("blockchainMonitor.currentHeight").len) <= x.validUntilBlock && x.validUntilBlock <= lastHeight(xcalls("blockchainMonitor.currentHeight").len) + 120
+  // the designation transaction is sent only with the signatures of a committee majority: the local one and M - 1 collected ones
+  ensures [C13] xcalls("actor.Actor.Send").len <= old(xcalls("actor.Actor.Send")).len + 1
+  // (a send refused as invalid resets the collected state in the same tick: the clause reads the state of ticks without a reset)
+  ensures [C13] xcalls("actor.Actor.Send").len == old(xcalls("actor.Actor.Send")).len + 1 && xcalls("transactionGroupMonitor.reset").len == old(xcalls("transactionGroupMonitor.reset")).len ==>
+        len(cur(mCommitteeIndexToSignature)) >= len(prm.committee) - (len(prm.committee) - 1) / 2 - 1
   loop 0
     invariant xcalls("actor.Actor.SendCall").len == old(xcalls("actor.Actor.SendCall")).len
+    invariant xcalls("base64.Encoding.EncodeToString").len == old(xcalls("base64.Encoding.EncodeToString")).len
+    invariant xcalls("actor.Actor.Send").len == old(xcalls("actor.Actor.Send")).len
+    invariant xcalls("transactionGroupMonitor.reset").len == old(xcalls("transactionGroupMonitor.reset")).len
   loop 1
     invariant 0 <= extraLen
   loop 2
